@@ -24,6 +24,8 @@ func runC13(c *core.Ctx) {
 	c.RuleDoc("R13.6", "an Open that proceeds has a reason")
 	c.RuleDoc("R13.9", "the context behind Done() is the reader's own")
 	c.RuleDoc("R13.7", "background writers always report")
+	c.RuleDoc("R13.12", "only spawned writers send on the error channel")
+	c.RuleDoc("R13.13", "no error of a destination call is dropped (= R12.2)")
 	c.RuleDoc("R13.11", "the buffer pool never provisions more buffers than its channel holds (Done and every Open return)")
 	c.RuleDoc("R13.10", "io.ErrUnexpectedEOF (a truncated stream) is never turned into io.EOF or success")
 	c.RuleDoc("R13.8", "pool buffers are returned on every continuing path (a leaked buffer blocks the reader, and with it Done and every pending Open, forever)")
@@ -43,6 +45,11 @@ func runC13(c *core.Ctx) {
 		r12Buffers(c, p, sh, "R13.8")
 		r13Truncation(c, p, "R13.10", pkgFuncs(p, "tar"))
 		r12PoolBound(c, p, "R13.11")
+		r13ReaderNeverSendsErrors(c, p)
+		// R13.13 (= R12.2): no error of a destination call is dropped — a directory whose mode could not be set fails the unpack
+		if sh12 := findTarShape(p); sh12 != nil && sh12.destField != "" && sh12.readErr != nil {
+			c.WithAlias(map[string]string{"R12.2": "R13.13"}, func() { r12Drop(c, p, sh12) })
+		}
 	}
 	c.Floor("R13.1", 1)
 	c.Floor("R13.2", 1)
@@ -53,6 +60,8 @@ func runC13(c *core.Ctx) {
 	c.Floor("R13.9", 1)
 	c.Floor("R13.7", 1)
 	c.Floor("R13.8", 2)
+	c.Floor("R13.12", 1)
+	c.Floor("R13.13", 8)
 }
 
 func isEmit(ci ssa.CallInstruction) bool {
@@ -698,4 +707,47 @@ func r13Reason(c *core.Ctx, p *load.Program, sh *tarShape) {
 	}
 	c.Check(src == "reader" || rechecks, "R13.6", key, p.Pos(mk.Pos()), "waiters are released only by the reader (announcement, or its own done-context after the error is stored), or Open re-checks after the wait",
 		fmt.Sprintf("%s: the context that releases every Wait is derived from the caller's context (%s): when the caller cancels, Open stops waiting before the reader has stored an error or finished the entry, finds no unpack error and opens the destination — it can return a big file that is still being written, or report a missing file as not existing instead of failing with the cancellation", fname(ctor), src))
+}
+
+// r13ReaderNeverSendsErrors (R13.12): a send on an error channel happens only inside a spawned goroutine (a closure
+// started with go): the error channel has one slot and is drained by the reader between entries — if the reader's own
+// goroutine sends while a background writer's error already sits in the slot, it blocks for ever: the stream never
+// ends, Done() never closes and every pending Open hangs. The reader returns its errors.
+func r13ReaderNeverSendsErrors(c *core.Ctx, p *load.Program) {
+	goClosures := map[*ssa.Function]bool{}
+	for _, fn := range pkgFuncs(p, "tar") {
+		ssax.Instrs(fn, func(ins ssa.Instruction) {
+			if g, ok := ins.(*ssa.Go); ok {
+				if mc, ok := g.Call.Value.(*ssa.MakeClosure); ok {
+					goClosures[mc.Fn.(*ssa.Function)] = true
+				}
+			}
+		})
+	}
+	n := 0
+	for _, fn := range pkgFuncs(p, "tar") {
+		ord := ordinals{}
+		ssax.Instrs(fn, func(ins ssa.Instruction) {
+			sd, ok := ins.(*ssa.Send)
+			if !ok {
+				return
+			}
+			ch, ok := sd.Chan.Type().Underlying().(*types.Chan)
+			if !ok || !ssax.IsErrorType(ch.Elem()) {
+				return
+			}
+			n++
+			inGo := false
+			for f := fn; f != nil; f = f.Parent() {
+				if goClosures[f] {
+					inGo = true
+				}
+			}
+			c.Check(inGo, "R13.12", fname(fn)+"|"+ord.next("error-sent-from-a-spawned-writer"), p.Pos(sd.Pos()), "the send is made by a spawned goroutine",
+				fmt.Sprintf("%s sends on the error channel from the reader's own goroutine: the channel holds one error and only the reader drains it — with a background writer's error already queued the send blocks for ever, the stream never ends, Done() never closes and every pending Open hangs", fname(fn)))
+		})
+	}
+	if n == 0 {
+		c.Hard("anchor: sends on the error channel in package tar")
+	}
 }
